@@ -3,7 +3,6 @@ package suspclock
 import (
 	"context"
 	"fmt"
-	"os"
 	"testing"
 	"time"
 
@@ -108,8 +107,8 @@ func (w *world) judge(what string, deadlineExceeded bool, reported time.Duration
 			if w.u > p.d+w.rho() || w.wall > w.limit() {
 				kind = "late"
 			}
-			w.fail("timeout-outside-window/"+kind, "%s: timeout raised at wall=%d unsuspended=%d ticks after the start, but timeout=%d threshold=%d maximum suspension=%d: allowed only when %d < unsuspended <= %d or wall == %d (cancelled by the command: %v)",
-				what, w.wall, w.u, p.d, p.threshold, p.maxSusp, p.d-p.threshold, p.d+w.rho(), w.limit(), w.cancelled)
+			w.fail("timeout-outside-window/"+kind, "%s: timeout raised at wall=%d unsuspended=%d ticks after the start, but timeout=%d threshold=%d maximum suspension=%d: allowed only when %d <= unsuspended <= %d or wall == %d (cancelled by the command: %v)",
+				what, w.wall, w.u, p.d, p.threshold, p.maxSusp, w.lower(), p.d+w.rho(), w.limit(), w.cancelled)
 		}
 	} else if !w.cancelled {
 		w.fail("spurious-cancel", "%s: completed as cancelled at wall=%d unsuspended=%d although the command never cancelled", what, w.wall, w.u)
@@ -209,6 +208,7 @@ func (w *world) commandTimer(clk *re_clock.SuspendableClock) {
 		w.mu.Unlock()
 		x.Logf("cmd: timer fired with value %v", v.Sub(epoch))
 		w.judge("timer", true, 0, false)
+		w.checkTimerValue(v)
 		x.ResetLocal("cmd@fired")
 		if t.Stop() {
 			w.fail("timer-stop", "Stop() returned true after the timer had fired")
@@ -225,11 +225,19 @@ func (w *world) commandTimer(clk *re_clock.SuspendableClock) {
 			w.judge("timer", false, 0, false)
 		} else {
 			// Stop() == false: the timer must have fired.
-			<-ch
+			v := <-ch
 			w.judge("timer", true, 0, false)
+			w.checkTimerValue(v)
 		}
 	}
 	x.ResetLocal("cmd@end")
+}
+
+// checkTimerValue: the value published by the timer is the firing instant.
+func (w *world) checkTimerValue(v time.Time) {
+	if now := w.clk.Now(); !v.Equal(now) {
+		w.fail("timer-value", "timer published %v, but it fired at %v", v.Sub(epoch), now.Sub(epoch))
+	}
 }
 
 func name(p params) string {
@@ -259,13 +267,7 @@ func scenario(p params, bounds map[string]int) *mc.Scenario {
 			w.startGate, w.finishGate = w.newGate(), w.newGate()
 			clk := re_clock.NewSuspendableClock(w.clk, time.Duration(p.maxSusp)*tick, time.Duration(p.threshold)*tick)
 			x.AdoptAnonymous()
-			x.SetKey(func() string {
-				k := w.key(clk)
-				if dbgKeys != nil {
-					dbgKeys[k]++
-				}
-				return k
-			})
+			x.SetKey(func() string { return w.key(clk) })
 
 			x.Go("R1", func() { w.reader(0, clk) })
 			x.Go("R2", func() { w.reader(1, clk) })
@@ -420,31 +422,14 @@ func scenario(p params, bounds map[string]int) *mc.Scenario {
 	}
 }
 
-var dbgKeys map[string]int
-
 func TestMC(t *testing.T) {
-	if os.Getenv("DBG_KEYS") != "" {
-		dbgKeys = map[string]int{}
-		defer func() {
-			f, _ := os.Create(os.Getenv("DBG_KEYS"))
-			for k, n := range dbgKeys {
-				fmt.Fprintf(f, "%d %s\n", n, k)
-			}
-			f.Close()
-		}()
-	}
+
 	var scs []*mc.Scenario
 	for _, timer := range []bool{false, true} {
 		for _, d := range []int{2, 3} {
 			for _, m := range []int{0, 1, 3} {
 				for _, th := range []int{0, 1} {
 					p := params{d: d, maxSusp: m, threshold: th, maxStart: 1, timer: timer}
-					if v := os.Getenv("DBG_MAXSTART"); v != "" {
-						fmt.Sscan(v, &p.maxStart)
-					}
-					if v := os.Getenv("DBG_R2"); v != "" {
-						fmt.Sscan(v, &maxReaderOps[1])
-					}
 					scs = append(scs, scenario(p, map[string]int{"quick": 2, "thorough": -1}))
 				}
 			}
